@@ -25,7 +25,7 @@ func init() {
 		Level: "model_checking",
 		Rule: "BFS to closure of the used-nonce lattice over pairs {0,1}x{0,2^64-1} (quick) / {0,1}x{0,1,2^64-1} (thorough): each pair receivable as a plain message (v in {0,1}, submitter A) or as a module-addressed burn message " +
 			"(legacy v 27/28, submitter B), plus failing receives, pause/unpause, disabling and re-enabling an attester, unlinking and re-linking the token pair, removing and re-adding the remote token messenger, and the chain advancing a million blocks / ten years; every other administrative transaction type probed in every state; used set observed through single query, paginated list and export in every state; " +
-			"plus the ordered-pair grid {0,1,255,256,2^32-1}x{0,1,255,256,2^32-1,2^32,2^64-1} for key injectivity; distinct_nontrivial counts distinct (used set, transaction, outcome) triples and grid pairs",
+			"plus the ordered-pair grid {0,1,255,256,0xFF000000,2^32-1}x{0,1,255,256,2^32-1,2^32,2^64-1} for key injectivity; distinct_nontrivial counts distinct (used set, transaction, outcome) triples and grid pairs",
 		Assumptions: []string{"attestations are produced by the harness keys (honest attesters); forgery is not attempted"},
 		Jobs:        c02Jobs,
 		Vacuity: func(m *Run) []string {
@@ -39,7 +39,7 @@ func init() {
 
 func c02Jobs(tier string) []Job {
 	jobs := []Job{{Name: "used-nonce-bfs", Run: func(r *Run) { c02BFS(r) }}}
-	doms := []uint32{0, 1, 255, 256, 1<<32 - 1}
+	doms := []uint32{0, 1, 255, 256, 0xFF000000, 1<<32 - 1}
 	for _, d := range doms {
 		d := d
 		jobs = append(jobs, Job{Name: fmt.Sprintf("key-grid-domain-%d", d), Run: func(r *Run) { c02Grid(r, d, doms) }})
@@ -273,8 +273,11 @@ func c02Grid(r *Run, d uint32, doms []uint32) {
 			continue
 		}
 		r.States++
-		single, list, _, err := observeUsed(w, grid)
+		single, list, export, err := observeUsed(w, grid)
 		r.Evaluations += len(grid)
+		if err == nil && (len(export) != 1 || export[0] != p.key()) {
+			r.Violate("C02 exported used-nonce list after one receive is not exactly that pair", fmt.Sprintf("marked %s, export %v", p.key(), export), scn.Replay("actions", []Action{a}))
+		}
 		if err != nil {
 			r.Violate("C02 used-nonce query failed", err.Error(), scn.Replay("actions", []Action{a}))
 			continue
